@@ -33,13 +33,19 @@ def nontrivial(e):
 
 def MC_RUNS(quick):
     runs = [("MCCurve", "MCCurve", "the definition (lib/Curve) is a group law: every nonsingular curve over F_5, F_7, F_11", False),
-            ("GroupLaw", "GroupLaw", "formula programs as coded vs affine law: every nonsingular curve over F_5, F_7, F_11, "
-                                     "every ordered pair of points, every representation class", False),
-            ("ScalarMul", "ScalarMul", "multiplication algorithms as coded over Z_n, n in {7,11,13}", False)]
+            ("GroupLaw", "GroupLaw", "formula programs of relic_ep_add_tmpl.h / relic_ep_dbl_tmpl.h as coded (affine, projective "
+                                     "RCB a=0/a=-3/generic incl. mixed and Z=1 shortcuts, Jacobian) + dispatch, ep_neg/norm/cmp vs the "
+                                     "affine law: every nonsingular curve over F_5, F_7, F_11, every ordered pair of points, every "
+                                     "representation (all z for p <= 7, z in {1,2,3,p-1} at 11): one state per curve, ~0.5M "
+                                     "projective + ~0.5M Jacobian addition cases + 1.8M ep_cmp cases", False),
+            ("ScalarMul", "ScalarMul", "multiplication algorithms and recodings as coded over Z_n (lwnaf, lwreg, monty, slide, basic, dig, "
+                                       "combs, combd, fix_basic, fix_lwnaf, sim_inter/trick/joint/lot, GLV basis/imp/reg), n in {7,11,13}, "
+                                       "w 2..5, depth 2..4, RLC_DIG in {8,64}, k in -2n..3n and 2^j(+-1), j <= 10: 212,823 scalar cases", False)]
     if not quick:
-        runs += [("GroupLaw", "GroupLaw_p13", "every nonsingular curve over F_13", False),
-                 ("ScalarMul", "ScalarMul_full", "n in {7,11,13,19,31}", False)]
-    return [r for r in runs if os.path.exists(os.path.join(core.TLA, "model", r[1] + ".cfg"))]
+        runs += [("GroupLaw", "GroupLaw_p13", "every nonsingular curve over F_13, all z: 4.8M projective + 4.8M Jacobian addition "
+                                              "cases + 3.0M ep_cmp cases", False),
+                 ("ScalarMul", "ScalarMul_full", "n in {7,11,13,19,31} (GLV: 7..67), every base point: 2,499,313 scalar cases", False)]
+    return runs
 
 
 # curve identifiers ep_param_set accepts on the unchanged tree (include/relic_ep.h: NIST_P256, BSI_P256, SECG_K256,
@@ -85,7 +91,7 @@ def full_width(curves, rng, quick, grp_scale=1.0, mul_scale=1.0):
         grp += g
         # ---- scalar multiplication: the corner set of scalars for every routine
         corners = gen_ep.scalar_corners(cv, rng, nrand=4 if quick else 12, nlong=3 if quick else 10)
-        per_op = max(6, int((14 if quick else len(corners)) * mul_scale))
+        per_op = max(6, int((22 if quick else 0.6 * len(corners)) * mul_scale))
 
         def ks_for(op, corners=corners, per_op=per_op):
             if per_op >= len(corners):
